@@ -24,9 +24,14 @@ struct Pattern
     std::uint64_t seed = 0;
     std::size_t n = 1;
     bool negate = false;
+    bool interleave = false; // every other value is NaN / +inf / -inf (dropped by the library, must not disturb the sum of the others)
 
     T operator()(std::size_t i) const
     {
+        if (interleave && i % 2 == 1)
+        {
+            return i % 6 == 1 ? std::numeric_limits<T>::quiet_NaN() : (i % 6 == 3 ? std::numeric_limits<T>::infinity() : -std::numeric_limits<T>::infinity());
+        }
         long double v;
         long double const eps = vf::eps<T>();
         switch (kind)
@@ -167,6 +172,7 @@ void run_t(vf::Ctx& c)
         int const e = static_cast<int>(t.range(0, 20)) - 10;
         s.pat.scale = static_cast<T>(std::pow(10.0L, static_cast<long double>(e)));
     }
+    s.pat.interleave = t.pick(5) == 0;
     int const integrator = static_cast<int>(t.pick(3));
     // distributions: none, one (1-d or 2-d) or two (1-d with values a billion times larger, followed by a 2-d one)
     int const dist = static_cast<int>(t.pick(4)); // 0 none, 1 1-d, 2 2-d, 3 both
@@ -195,7 +201,7 @@ void run_t(vf::Ctx& c)
     if (dist == 3) { add_dist(false, static_cast<T>(1e9)); add_dist(true, T(1)); }
     std::uint32_t const seed = 1 + static_cast<std::uint32_t>(t.next() % 100000u);
     std::mt19937 eng(seed);
-    c.desc << vf::type_name<T>::get() << " N=" << n << " pattern=" << s.pat.name() << (s.pat.negate ? " negated" : "") << " scale=" << vf::show(s.pat.scale)
+    c.desc << vf::type_name<T>::get() << " N=" << n << " pattern=" << s.pat.name() << (s.pat.negate ? " negated" : "") << (s.pat.interleave ? " every-other-value-non-finite" : "") << " scale=" << vf::show(s.pat.scale)
            << " integrator=" << (integrator == 0 ? "PLAIN" : integrator == 1 ? "VEGAS" : "MULTI") << " dist=" << dist;
     for (auto const& ds : s.dists) { c.desc << " [" << (ds.two_d ? "2d " : "1d ") << ds.nbins << " bins mode " << ds.bin_mode << " x" << vf::show(ds.factor) << "]"; }
     c.desc << " seed=" << seed;
@@ -256,6 +262,7 @@ void run_t(vf::Ctx& c)
     if (separates) { c.label("separates-naive-from-compensated"); }
     if (n >= 100000) { c.label("N>=1e5"); }
     if (s.pat.negate) { c.label("negated"); }
+    if (s.pat.interleave) { c.label("interleaved-non-finite"); }
     c.label(std::string("pattern:") + s.pat.name());
     c.nontrivial = separates;
 }
